@@ -1,0 +1,6 @@
+//go:build !verif
+
+package types
+
+// verifApproxRootIter is a no-op unless built with the verif tag.
+func verifApproxRootIter() {}
